@@ -66,6 +66,9 @@ def _inner_state(crate, ex, st, active_present=None):
     ablock = Obj("async_lock::RwLock<blob::core::Blob<K>>")
     blob = Obj("blob::core::Blob<K>")
     blob.tag = ("the_active_blob",)
+    from .ob_blob import file_obj
+    bf, _bsize, _bsynced = file_obj(crate, st, "activefile")
+    blob.fields[(None, crate.field_index("Blob", "file"))] = bf
     ablock.fields[(None, 7000)] = blob
     st.mem[blobcell] = ablock
     ab.fields[("Some", 0)] = Ref(blobcell, (), True, "Box<async_lock::RwLock<blob::core::Blob<K>>>")
@@ -599,3 +602,44 @@ def deferred_deadline_inv(crate):
 
     _check_paths(ex, res, outs, per_path)
     return P.finish(ex, res, ["dump task busy: request kept and re-armed", "dump started: request cleared", "not yet time: deadline moved", "nothing deferred"])
+
+
+def fsync_flag_released(crate):
+    """C12: Inner::fsyncdata (the background sync task's body): the single-flight flag fsync_in_progress, once taken, is
+    released on every way out (sync done, nothing to sync, sync failed); otherwise no later background sync would ever start.
+    If the flag is already taken the call returns Ok without touching it."""
+    res = P.ObResult("fsync_flag_released")
+    fn = crate.method("Inner", "fsyncdata")
+    res.functions = ["Inner::fsyncdata (async body)", "<ResetableFlag as Drop>::drop", "Inner::too_many_dirty_bytes", "Safe::fsyncdata"]
+    res.bounds = "one call, flag taken or free, active blob present/absent, arbitrary dirty bytes and limit, sync may fail"
+    ex = P.mk_executor(crate, cap=2, loop_bound=4,
+                       inline=[x for x in INLINE_STORAGE if "fsyncdata" not in x] + [r"^Inner::(fsyncdata|too_many_dirty_bytes)$", r"^Safe::fsyncdata$",
+                                                                                  r"^<ResetableFlag as Drop>::drop$", r"^Blob::file_dirty_bytes$", r"^Config::max_dirty_bytes_before_sync$"])
+    st = State()
+    iref, safe, ab, act, blob = _inner_state(crate, ex, st)
+    inner = st.mem[iref.cell]
+    flag = Obj("std::sync::atomic::AtomicBool")
+    f0 = z3.Bool("flag_taken_before")
+    flag.fields[(None, 7002)] = Sym(f0, "bool")
+    inner.fields[(None, crate.field_index("Inner", "fsync_in_progress"))] = flag
+    outs = P.drive_async(ex, st, fn, [iref])
+    res.paths = len(outs)
+
+    def per_path(o, isok, payload):
+        inner2 = o.mem[iref.cell]
+        f1 = inner2.fields[(None, crate.field_index("Inner", "fsync_in_progress"))].fields[(None, 7002)].t
+        if not P.prove(ex, res, o, z3.Implies(z3.Not(f0), z3.Not(f1)), "flag taken by this call is released on return"):
+            return False
+        if not P.prove(ex, res, o, z3.Implies(f0, z3.And(f1, isok)), "flag held by someone else: Ok, flag untouched"):
+            return False
+        syncs = [e for e in P.events_of(o) if "fsyncdata" in e[1] and e[0] == "await"]
+        if syncs:
+            P.cover(ex, res, o, z3.And(z3.Not(f0), _ev_result_ok(ex, o, syncs[0])), "synced, flag released")
+            P.cover(ex, res, o, z3.And(z3.Not(f0), z3.Not(_ev_result_ok(ex, o, syncs[0]))), "sync failed, flag released")
+        else:
+            P.cover(ex, res, o, z3.And(z3.Not(f0), act == BV64(1)), "nothing to sync (below the limit), flag released")
+        P.cover(ex, res, o, f0, "another sync in flight")
+        return True
+
+    _check_paths(ex, res, outs, per_path)
+    return P.finish(ex, res, ["synced, flag released", "sync failed, flag released", "nothing to sync (below the limit), flag released", "another sync in flight"])
